@@ -78,3 +78,14 @@ def scratch_dir(prefix="mpwork_"):
     """A scratch working directory next to the snapshot (deleted together with it)."""
     base = take()
     return tempfile.mkdtemp(prefix=prefix, dir=base)
+
+
+def remove_path(path):
+    """remove a file OR a directory tree that a run under test left behind (never raises)"""
+    try:
+        if os.path.isdir(path) and not os.path.islink(path):
+            shutil.rmtree(path, ignore_errors=True)
+        else:
+            os.remove(path)
+    except OSError:
+        pass
